@@ -81,6 +81,51 @@ example : (match parseTest "Q A\nC 0\n".toList with
     | _ => false) = true := by
   decide +kernel
 
+/-! ### a run that goes on behind error items (`RowIt.nextC`, the hypotheses of the continued-run theorems) -/
+
+/-- a loop whose header cannot be evaluated on the second pass of the enclosing loop, a row that divides by zero, a `let`
+whose `random` range is empty; rows in between and behind -/
+def srcErr : Str :=
+  "A Q
+let x = 7;
+loop(i,3)
+loop(j,2/(1-i))
+(x+j) X
+end loop
+end loop
+(1/0) X
+let y = random(0);
+(x) X
+".toList
+
+/-- the items of the first `n` calls of `next`, continued behind every item; with `vars()` behind rows -/
+def runC (tc : TestCase) : Nat → RowIt → Nat → List (String × List (String × Int64))
+  | 0, _, _ => []
+  | n+1, s, d =>
+    match s.nextC tc drv 1000 d with
+    | .item (.row r) s' d' _ => (s!"row {r.line} {repr (r.inputs.map (·.value))}", s'.vars) :: runC tc n s' d'
+    | .item (.err _) s' d' _ => ("error", s'.vars) :: runC tc n s' d'
+    | .none _ _ => [("end", [])]
+    | _ => [("panic", [])]
+
+def itemsOfC (src : Str) (sigs : List Signal) (n : Nat) : List (String × List (String × Int64)) :=
+  match parseTest src with
+  | .ok p =>
+    match withSignals p sigs with
+    | .ok tc =>
+      match tryNew tc drv 0 rng with
+      | .ok s d _ => runC tc n s d
+      | _ => []
+    | _ => []
+  | _ => []
+
+-- pass i=0: two rows (j = 0, 1); pass i=1: the inner header fails (2/0) — one error item, the inner loop is skipped and no
+-- scope is left open; pass i=2: bound 2/(1-2) = -2, no pass; behind the loops only `x` is in scope; the row `(1/0) X` is an error
+-- item and is skipped; the `let` with the empty `random` range is an error item and is skipped; the last row comes; then the end
+example : ((itemsOfC srcErr [⟨"Q", 4, .output⟩, ⟨"A", 4, .input (.val 0)⟩] 12).map (fun x => (x.1 == "error", x.2.map (·.1)))) =
+    [ (false, ["j", "i", "x"]), (false, ["j", "i", "x"]), (true, ["i", "x"]), (true, ["x"]), (true, ["x"]), (false, ["x"]), (false, []) ] := by
+  decide +kernel
+
 /-- the text is accepted: the hypotheses of `C10_accepted_wf` / `C10_accepted_never_panics` / `C11_bind_iff` are met -/
 theorem accepted : ∃ p tc, parseTest src = .ok p ∧ withSignals p sigs = .ok tc := by
   have h : (match parseTest src with
